@@ -78,6 +78,7 @@ type chaosOpts struct {
 	Window      time.Duration
 	CheckLinearizability bool
 	WriteHeavy  bool
+	ReadPct     int
 }
 
 type chaos struct {
@@ -187,6 +188,9 @@ func (c *chaos) clientLoop(ci int, sc *SimClient, start time.Duration) {
 		readPct := 30
 		if c.o.WriteHeavy {
 			readPct = 10
+		}
+		if c.o.ReadPct > 0 {
+			readPct = c.o.ReadPct
 		}
 		switch {
 		case k < readPct:
